@@ -7,6 +7,7 @@ package mhub2
 
 import (
 	"math/big"
+	"time"
 
 	sdk "github.com/cosmos/cosmos-sdk/types"
 
@@ -130,4 +131,42 @@ func ZZ_C06_SignerSets() {
 		return env
 	}
 	zzTwice("c06.signersets", build, func(env *keeper.ZZEnv) { createSignerSetTxs(env.Ctx, chain, env.K) })
+}
+
+// ZZ_C06_Expiry (C06): the end-block expiry of unbatched transfers run on two copies of the same state in the same
+// block. Which transfers are refunded must be a function of the state and the block alone; in the symbolic run every
+// read of the wall clock (time.Now, also inside time.Since / time.Until) returns an arbitrary instant that is
+// independent per read, so code that consults the clock makes the two copies diverge.
+// Native replay: the real clock cannot be set. The pool entries are therefore re-dated so that, by the wall clock,
+// they are one second short of the (one hour) timeout, the first copy runs at once and the second 2.1 s later; the
+// block time of both copies is the same. Code that looks only at the block treats both copies alike.
+func ZZ_C06_Expiry() {
+	native := !vrt.Symbolic()
+	build := func() *keeper.ZZState {
+		st := keeper.ZZBuildState(keeper.ZZStateOpts{MaxPool: 1, MaxBatches: 0, ConcreteIds: true, Chains: []types.ChainID{"ethereum"}})
+		p := keeper.ZZDefaultParams()
+		p.OutgoingTxTimeout = vrt.Uint64Below("timeout.ms", 1<<40)
+		if native {
+			p.OutgoingTxTimeout = 3600 * 1000
+		}
+		st.Env().K.ZZSetParams(st.Env().Ctx, p)
+		return st
+	}
+	a, b := build(), build()
+	if native {
+		created := uint64(time.Now().Unix()) - 3600 + 1
+		keeper.ZZRedatePool(a, created)
+		keeper.ZZRedatePool(b, created)
+	}
+	pa := vrt.Panics(func() { refundExpiredTxs(a.Env().Ctx, a.Chain(), a.Env().K) })
+	if native {
+		time.Sleep(2100 * time.Millisecond)
+	}
+	pb := vrt.Panics(func() { refundExpiredTxs(b.Env().Ctx, b.Chain(), b.Env().K) })
+	vrt.Reach("c06.expiry")
+	if pa || pb {
+		vrt.Assert("c06.expiry.same-outcome", pa == pb)
+		return
+	}
+	vrt.Assert("c06.expiry.same-state-and-events", keeper.ZZSameState(a.Env(), b.Env()))
 }
